@@ -523,7 +523,13 @@ def pytest_sessionfinish(session, exitstatus):
                         )
 
                     for external_name in used:
-                        state().storage.persist(external_name)
+                        try:
+                            # the glob pattern of the external matches the "-new" file
+                            # even if the name contains the whole hash (hash-length = 64)
+                            external_path = _external.external(external_name)._path
+                        except ValueError:
+                            continue
+                        state().storage.persist(external_path)
 
                 cr.fix_all()
 
